@@ -24,6 +24,7 @@ type vC09Cfg struct {
 	warm    bool // preceded by concurrent use
 	reqs    int
 	hotFrac int // hot set = cap / hotFrac
+	recency bool // preceded by a recency-friendly phase (a cyclic scan that fits a large window): the hill climber grows the window and its step decays
 	heavy   int // > 0: hot keys cost this much, every other key 1; the cache is first filled with cheap one-off keys
 }
 
@@ -137,6 +138,16 @@ func vC09Run(tr *vTrace, id string, c vC09Cfg, salt int64) {
 		}
 		tr.Emit(vRec{"ev": "req", "k": k, "hit": vb(hit), "hot": vb(isHot), "tail": vb(tail), "cost": costOf(k)})
 	}
+	if c.recency {
+		w := c.cap * 7 / 10
+		for i := 0; i < 40*c.cap; i++ {
+			request(3000000+i%w, false, false)
+			if i%64 == 63 {
+				st.Wait()
+			}
+		}
+		st.Wait()
+	}
 	if c.heavy > 0 {
 		// the cache is full of cheap keys that are never read again when the (heavy) hot keys arrive
 		for i := 0; i < c.cap; i++ {
@@ -219,6 +230,12 @@ func TestVerif_C09Quality(t *testing.T) {
 			vC09Run(tr, fmt.Sprintf("heavyhot_c%d_h%d", cap, heavy), c, int64(cap*10+50+hv))
 			n++
 		}
+	}
+	// after a recency-friendly phase (window grown by the hill climber, step decayed) the hot-set workload has to pull
+	// the window back: the drop of the hit ratio re-arms the climber
+	for _, cap := range []int{64, 200} {
+		vC09Run(tr, fmt.Sprintf("hot_after_scan_c%d", cap), vC09Cfg{cap: cap, kind: "hot", recency: true, hotFrac: 2, reqs: 30000}, int64(cap*10+90))
+		n++
 	}
 	// one large cache: 25 hot keys of cost 20 (half of a cache of 1000) after 1000 cheap one-off keys - on a small cache
 	// the few heavy hot keys get in through the random admission of warm candidates whatever the comparison does
